@@ -7,6 +7,8 @@ package strategy
 
 import (
 	"context"
+	"encoding/json"
+	"fmt"
 	"sync"
 	"time"
 
@@ -29,7 +31,7 @@ func compareCurrentPodWithNewPod(params *Parameters, pod *corev1.Pod, node *Node
 	if !compareSpecTemplateMD5Hash(params.Replicaset.Spec.TemplateGeneration, pod) {
 		return false
 	}
-	if !compareWithExtendedDaemonsetSettingOverwrite(pod, node) {
+	if !compareWithExtendedDaemonsetSettingOverwrite(pod, withoutNodeOverriddenContainers(params, node)) {
 		return false
 	}
 	if !compareNodeResourcesOverwriteMD5Hash(params.EDSName, params.Replicaset, pod, node) {
@@ -37,6 +39,33 @@ func compareCurrentPodWithNewPod(params *Parameters, pod *corev1.Pod, node *Node
 	}
 
 	return true
+}
+
+// withoutNodeOverriddenContainers hides from the ExtendedDaemonsetSetting the containers whose resources are
+// overridden by a (decodable) node annotation: at pod creation the annotation wins over the setting, so the
+// setting must not be compared against such a container, otherwise the pod is seen as outdated forever.
+func withoutNodeOverriddenContainers(params *Parameters, node *NodeItem) *NodeItem {
+	if node.ExtendedDaemonsetSetting == nil || node.Node == nil || params.Replicaset == nil {
+		return node
+	}
+	var kept []datadoghqv1alpha1.ExtendedDaemonsetSettingContainerSpec
+	for _, container := range node.ExtendedDaemonsetSetting.Spec.Containers {
+		key := fmt.Sprintf(datadoghqv1alpha1.ExtendedDaemonSetRessourceNodeAnnotationKey, params.Replicaset.Namespace, params.EDSName, container.Name)
+		if val, ok := node.Node.GetAnnotations()[key]; ok {
+			var resources corev1.ResourceRequirements
+			if err := json.Unmarshal([]byte(val), &resources); err == nil {
+				continue
+			}
+		}
+		kept = append(kept, container)
+	}
+	if len(kept) == len(node.ExtendedDaemonsetSetting.Spec.Containers) {
+		return node
+	}
+	setting := node.ExtendedDaemonsetSetting.DeepCopy()
+	setting.Spec.Containers = kept
+
+	return &NodeItem{Node: node.Node, ExtendedDaemonsetSetting: setting}
 }
 
 func compareNodeResourcesOverwriteMD5Hash(edsName string, replicaset *datadoghqv1alpha1.ExtendedDaemonSetReplicaSet, pod *corev1.Pod, node *NodeItem) bool {
